@@ -410,6 +410,8 @@ def check_property(prop, tier, seed):
             if tier == "quick" and getattr(sc, "thorough_only", False):
                 continue
             n = getattr(ct, "shards", 1)
+            if getattr(ct, "shard_big_only", False) and not getattr(sc, "thorough_only", False):
+                n = 1  # shallow path trees gain nothing from path sharding (every shard walks the top of the tree)
             tasks.extend((ct.key, sc.name, timeout_ms, prop, i, n) for i in range(n))
     tasks += [("lemma:" + l.name, "lemma", timeout_ms, prop) for l in w.lemmas if prop in l.serves]
     results = []
